@@ -164,10 +164,46 @@ fn gen(g: &mut G, thorough: bool) -> Plan {
         p.host_v6 = true;
         g.probe("origin-named-by-ipv6-literal");
     }
+    let mut megabytes_idle = false;
     match fam {
         Family::NoFalseTimeout => {
             // also "no limit" as callers write it: the largest Duration there is
             p.t_ms = Some(*g.pick(&[60_000u64, 120_000, 600_000]));
+            // (no draw) a small coded body that inflates to megabytes, all of it in the client's buffer when send()
+            // returns; the caller then sits on the response past the deadline and reads: nothing more is needed from
+            // the peer, the response completed long ago
+            let whole_in_one_read = p.body.wire.bytes.len() <= 4096 && p.body.framing == Framing::Length && p.body.extra_headers.iter().any(|(n, _)| n == "Content-Encoding");
+            if whole_in_one_read && p.body.payload.len() % 2 == 1 && p.route == Route::Plain {
+                use std::io::Write;
+                let label = String::from_utf8_lossy(&p.body.extra_headers.iter().find(|(n, _)| n == "Content-Encoding").unwrap().1).to_string();
+                let big = vec![b'z'; (2 << 20) + p.body.payload.len()];
+                let coded: Vec<u8> = if label == "gzip" {
+                    let mut e = flate2::write::GzEncoder::new(Vec::new(), flate2::Compression::best());
+                    e.write_all(&big).unwrap();
+                    e.finish().unwrap()
+                } else {
+                    let mut e = flate2::write::DeflateEncoder::new(Vec::new(), flate2::Compression::best());
+                    e.write_all(&big).unwrap();
+                    e.finish().unwrap()
+                };
+                let mut wire = format!("HTTP/1.1 200 OK\r\nContent-Encoding: {}\r\nContent-Length: {}\r\n\r\n", label, coded.len()).into_bytes();
+                let head_len = wire.len();
+                wire.extend_from_slice(&coded);
+                if wire.len() <= 6000 {
+                    p.body.wire.bytes = wire.clone();
+                    p.body.wire.head_len = head_len;
+                    p.body.wire.frame_end = wire.len();
+                    p.body.payload = big;
+                    p.body.declared_len = coded.len();
+                    let mut sc = Script::default();
+                    sc.acts.push(Act::Send(wire));
+                    sc.acts.push(Act::Fin);
+                    p.body.script = sc;
+                    p.body.read_mode = bodyx::ReadMode::Sizes(vec![65536], "64k");
+                    megabytes_idle = true;
+                    g.probe("megabytes-inflated-from-the-buffer-after-the-deadline");
+                }
+            }
             if g.chance(1, 12) {
                 // "no limit" as callers write it: the largest Duration there is.  For the oracle there
                 // is no deadline; the caller passes Duration::MAX
@@ -188,6 +224,10 @@ fn gen(g: &mut G, thorough: bool) -> Plan {
             p.rereads = g.below(6) as usize;
             for _ in 0..g.below(4) {
                 p.think.push((g.usize_below(12), 1 + g.below(200)));
+            }
+            if megabytes_idle {
+                p.scripts = vec![p.body.script.clone()];
+                p.think = vec![(0, p.t_ms.unwrap_or(0) + 1_000)];
             }
             if g.chance(1, 4) {
                 p.drop_after_calls = Some(g.usize_below(6));
